@@ -697,6 +697,44 @@ func (c *expiringContext) Err() error {
 }
 func (c *expiringContext) Deadline() (time.Time, bool) { return time.Time{}, false }
 
+// ---- scenario: Wait() right after New() on a live context (C07) ------------------------------------
+
+// Wait must not return while the context is live, however early it is called: the 2L goroutines are
+// counted before they are started. Run on one P so that the waiter is scheduled before the lane's
+// goroutines had a chance to run.
+func tlWaitEarly(s *Stream, L, Q int, oneP bool) {
+	sc := tlScenario{Kind: "wait-early", L: L, Q: Q, Detail: fmt.Sprintf("oneP=%v", oneP)}
+	if oneP {
+		old := runtime.GOMAXPROCS(1)
+		defer runtime.GOMAXPROCS(old)
+	}
+	ctx, cancel := context.WithCancel(context.Background())
+	defer cancel()
+	tl := tasklane.New(ctx, L, Q)
+	r := newTLRun()
+	returned := make(chan struct{})
+	go func() { tl.Wait(); close(returned) }()
+	select {
+	case <-returned:
+		s.Violate("wait-returned-on-live-context", "Wait() returned although the context is live and the lane's goroutines are running", sc)
+	case <-time.After(15 * time.Millisecond):
+	}
+	// the lane must still work and shut down normally
+	t := &tlTask{id: 1, r: r}
+	err := tl.PushTask(t, 0)
+	if err == nil && !waitUntil(tlDeadline, func() bool { return r.isStarted(1) }) {
+		s.Violate("accepted-task-not-started", "task pushed after an early Wait() call never started", sc)
+	}
+	cancel()
+	select {
+	case <-returned:
+	case <-time.After(tlDeadline):
+		s.Violate("wait-does-not-return", "Wait() did not return after cancel", sc)
+	}
+	s.Evaluations++
+	s.Nontrivial(fmt.Sprintf("wait-early/%d/%d/%v", L, Q, oneP))
+}
+
 // ---- driver -----------------------------------------------------------------------------------------
 
 // tlEnough: once a few violations are recorded there is no point in running the remaining
@@ -762,6 +800,14 @@ func runTL(cfg Cfg, name string) {
 	case "tl_cancel":
 		s.Rule = "cancellation (cancel func or expiring deadline) landing while a goroutine is held at each protocol point (q.took, q.counted, q.blocking, q.handed, w.got, p.enter, p.inner) in each base state (idle, queues full, producers blocked, workers mid-task), lanes 1..3 x queue 0..2; oracle: Wait returns, no goroutine left, PushTask after cancel returns the context error, blocked producers released, nothing started twice or after Wait; non-trivial = distinct (L,Q,point,base,ctx kind,point reached)"
 		kinds := []string{"cancel", "deadline"}
+		for rep := 0; rep < cfg.N(4, 20); rep++ {
+			for L := 1; L <= maxL; L++ {
+				if tlEnough(s) {
+					break
+				}
+				tlWaitEarly(s, L, rep%3, rep%2 == 0)
+			}
+		}
 		for rep := 0; rep < cfg.N(1, 6); rep++ {
 			for L := 1; L <= maxL; L++ {
 				for Q := 0; Q <= maxQ; Q++ {
